@@ -76,6 +76,9 @@ def _sqrt(E, x):
     return math.sqrt(x)
 
 
+_CP_ALS_LOCALS = ("M", "init", "fit", "normresidual", "iteration")
+
+
 def _run(E, X, R, dimorder, optdims, init_arg, printitn, fixsigns, cut):
     """run cp_als for one sweep; with cut=True stop right before the final arrange and hand back cp_als' locals"""
     import sys
@@ -84,9 +87,16 @@ def _run(E, X, R, dimorder, optdims, init_arg, printitn, fixsigns, cut):
     state = {}
     if cut:
         def arrange(self, *a, **k):
-            loc = sys._getframe(1).f_locals
-            if "U_mttkrp" in loc:  # called from cp_als itself
-                raise Cut(dict(loc))
+            fr = sys._getframe(1)
+            if fr.f_code.co_name == "cp_als":  # called from cp_als itself: the final arrange
+                loc = dict(fr.f_locals)
+                missing = [k for k in _CP_ALS_LOCALS if k not in loc]
+                if missing:
+                    # the harness reads these local variables of cp_als; if the source was reorganised the
+                    # obligation is inconclusive (exit 2), never a violation
+                    from symx.core import Unmodelled
+                    raise Unmodelled(f"cp_als internals changed: local variable(s) {missing} not found at the final arrange")
+                raise Cut(loc)
             return real_arrange(self, *a, **k)
         ttb.ktensor.arrange = arrange
     try:
@@ -133,9 +143,9 @@ def sweep(E, shape, R, kind, dimorder, optdims, init, printitn, fixsigns):
         K0 = O.kruskal(E, "g", shape, R)
         snap = (O.cells(K0.weights), [O.cells(f) for f in K0.factor_matrices])
     state, rng, nv, sv = _run(E, X, R, dimorder, optdims, K0 if init == "given" else init, printitn, fixsigns, cut=True)
-    E.true("locals" in state, "the sweep reached the final arrange")
     if "locals" not in state:
-        return
+        from symx.core import Unmodelled
+        raise Unmodelled("cp_als internals changed: the final arrange was not reached from cp_als")
     L = state["locals"]
     Minit = L["init"]
     _check_init(E, init, Minit, K0, snap, rng, nv, xc, shape, R)
